@@ -56,7 +56,7 @@ fn generics(c: &mut Cur) -> PResult<Vec<String>> {
     Ok(g)
 }
 
-fn params(c: &mut Cur) -> PResult<Vec<Field>> {
+fn params(c: &mut Cur, issues: &mut Vec<String>) -> PResult<Vec<Field>> {
     c.expect_p("(")?;
     let mut out = vec![];
     while !c.is_p(")") {
@@ -73,7 +73,8 @@ fn params(c: &mut Cur) -> PResult<Vec<Field>> {
                 markers.insert("=None".to_string());
             } else if c.eat_kw("_") {
                 // `= _` is only legal for `var` members, never as a parameter default
-                return c.fail(true, "`= _` is not a valid default argument");
+                issues.push(format!("`= _` is not a valid default argument (parameter {ident})"));
+                markers.insert("=_".to_string());
             } else if c.bump().is_some() {
                 markers.insert("=default".to_string());
             } else {
@@ -204,7 +205,7 @@ fn items(c: &mut Cur, f: &mut File, until_brace: bool) -> PResult<()> {
             let name = c.expect_ident()?.text.clone();
             let mut d = Def::new(DefKind::Struct, &name, start);
             d.generics = generics(c)?;
-            d.fields = params(c)?;
+            d.fields = params(c, &mut f.syntax_issues)?;
             d.parents = extends(c)?;
             if c.is_p("{") && !c.nl_before() {
                 member_block(c)?;
@@ -217,7 +218,7 @@ fn items(c: &mut Cur, f: &mut File, until_brace: bool) -> PResult<()> {
             let mut d = Def::new(DefKind::Struct, &name, start);
             d.generics = generics(c)?;
             if c.is_p("(") && !c.nl_before() {
-                d.fields = params(c)?;
+                d.fields = params(c, &mut f.syntax_issues)?;
             }
             d.parents = extends(c)?;
             d.end = c.pos();
@@ -253,7 +254,7 @@ fn items(c: &mut Cur, f: &mut File, until_brace: bool) -> PResult<()> {
                 } else if c.eat_kw("class") {
                     let id = c.expect_ident()?.text.clone();
                     generics(c)?;
-                    let p = params(c)?;
+                    let p = params(c, &mut f.syntax_issues)?;
                     let parents = extends(c)?;
                     let serial = if c.is_p("{") { member_block(c)? } else { None };
                     if p.len() != 1 {
